@@ -127,6 +127,33 @@ Theorem C16_listener_replay : forall (h : Z) (c : case) (ops : list op) (n : nat
 Proof. exact (listener_replay gen_sig_tables C16_source_tables_ok). Qed.
 Print Assumptions C16_listener_replay.
 
+(* the class hierarchy.  T1: descriptor_generator of the CURRENT source walks type(obj).__mro__ most derived
+   class first and skips names already seen ... *)
+Theorem C16_source_shadowing : gen_dg_shadowing = true.
+Proof. reflexivity. Qed.
+Print Assumptions C16_source_shadowing.
+
+(* ... hence observables[name] is the most derived definition of name (what attribute lookup finds), present
+   exactly when that definition is an Observable / ObservableList - whatever base classes bind the name to,
+   and not at all when a subclass shadows an inherited observable with a plain attribute *)
+Theorem C16_observables_most_derived : forall mro n,
+  dict_get n (observables_of gen_dg_shadowing mro) =
+  match most_derived mro n with Some e => if is_obs e then Some e else None | None => None end.
+Proof. rewrite C16_source_shadowing. exact observables_most_derived. Qed.
+Print Assumptions C16_observables_most_derived.
+
+(* ... and the signal types run_case uses for attribute n of every instance of a case are those of the most
+   derived definition of n in the case's hierarchy *)
+Theorem C16_effective_types : forall (c : case) vals n s e,
+  In vals (c_vals c) -> 0 <= n -> nth_error vals (Z.to_nat n) = Some s ->
+  most_derived (c_mro c) n = Some e -> is_obs e = true ->
+  types_of gen_sig_tables (build_slots (observables_of gen_dg_shadowing (c_mro c)) 0 vals) n =
+  types_of_entry gen_sig_tables e.
+Proof.
+  intros c vals n s e _. exact (effective_types gen_sig_tables gen_dg_shadowing (c_mro c) vals n s e C16_source_shadowing).
+Qed.
+Print Assumptions C16_effective_types.
+
 (* after unobserve(nm, ty, h) - from any state that agrees with a ledger, i.e. after any history - h receives
    no signal of any (name, type) the call names, as long as h is not subscribed to instance i again *)
 Theorem C16_unobserve_silences : forall slots_of st L,
@@ -197,7 +224,7 @@ Print Assumptions C16_type_order_irrelevant.
 
 (* ------------------------------------------------------------------ non-vacuity *)
 Definition ex_case : case :=
-  {| c_insts := [[SObs None (Some 3); SList (Some [1; 2; 3])]];
+  {| c_mro := [[(0, EObs (Some 3))]; [(1, EList)]]; c_vals := [[SObs None None; SList (Some [1; 2; 3])]];
      c_ops := [Observe 0 TAll SAll 1; Observe 0 (TName 1) (SType 5) 2; Observe 0 TAll (SType 5) 2;
                ListOp 0 1 (LAppend 7); Assign 0 0 4; Unobserve 0 TAll SAll 1; ListOp 0 1 LReverse;
                Kill [2]; ListOp 0 1 LClear] |}.
@@ -250,12 +277,21 @@ Proof. vm_compute. repeat split; reflexivity. Qed.
 (* listener replay is not vacuous: two instances, other handlers come and go, 9 is left alone; its copy after the
    history holds the real values, which did change *)
 Example C16_example_listener :
-  let c := {| c_insts := [[SObs None (Some 3); SList (Some [1; 2; 3])]; [SObs (Some 5) None; SList None]]; c_ops := [] |} in
+  let c := {| c_mro := [[(1, EList)]; [(0, EObs (Some 3)); (1, EObs None)]];
+              c_vals := [[SObs None None; SList (Some [1; 2; 3])]; [SObs (Some 5) None; SList None]]; c_ops := [] |} in
   let ops := [Observe 0 TAll (SType 1) 4; ListOp 0 1 (LSetSlice None None (Some (-1)) [7; 8; 9]); Assign 0 0 6;
               AssignList 1 1 [4; 4]; ListOp 1 1 (LIAdd [5]); Kill [4]; ListOp 0 1 LReverse; ListOp 1 1 (LPop None);
               Unobserve 0 TAll SAll 4; ListOp 0 1 LClear; Assign 1 0 8] in
   forallb (undisturbed 9) ops = true /\
   listen gen_sig_tables 9 (c_insts c)
          (run_deliveries gen_sig_tables (init_state c) (subscribe_all 9 2 ++ ops)) =
-  [[SObs (Some 6) (Some 3); SList (Some [])]; [SObs (Some 8) None; SList (Some [4; 4])]].
+  [[SObs (Some 6) (Some 3); SList (Some [])]; [SObs (Some 8) (Some 3); SList (Some [4; 4])]].
 Proof. vm_compute. split; reflexivity. Qed.
+(* hierarchy: Sub overrides the inherited Observable 0 with an ObservableList, shadows the inherited ObservableList 7
+   with a plain attribute, inherits 2; without the shadowing walk (the unrepaired code) the base class's kind wins *)
+Example C16_example_hierarchy :
+  let mro := [[(0, EList); (7, EPlain)]; [(0, EObs None); (7, EList); (2, EObs (Some 1))]] in
+  most_derived mro 0 = Some EList /\ most_derived mro 7 = Some EPlain /\
+  observables_of true mro = [(0, EList); (2, EObs (Some 1))] /\
+  observables_of false mro = [(0, EObs None); (7, EList); (2, EObs (Some 1))].
+Proof. vm_compute. repeat split; reflexivity. Qed.
